@@ -413,7 +413,7 @@ Fixpoint print_trace (m : mode) (v : pval) : list effect :=
   | PFun r => print_trace m r
   | PLazy g r =>
       [out_effect m]                                             (* opening bracket *)
-      ++ concat (map (print_trace m) g)                          (* cached items, each with its separator as `end` *)
+      ++ sep_join [out_effect m] (map (print_trace m) g)         (* cached items, a separate write for each separator between them *)
       ++ match r with
          | [] => []
          | _ => (match g with [] => [] | _ => [out_effect m] end)   (* separator after the cache *)
